@@ -14,7 +14,12 @@ mod c13;
 mod c14;
 mod c16;
 mod c17;
+mod c19;
+mod probe;
 mod c02;
+mod c04;
+mod c05;
+mod spell;
 mod closure;
 mod optable;
 mod pools;
@@ -27,6 +32,8 @@ fn dispatch(id: &str, ctx: &mut Ctx) -> bool {
     match id {
         "C01" => c01::run(ctx),
         "C02" => c02::run(ctx),
+        "C04" => c04::run(ctx),
+        "C05" => c05::run(ctx),
         "C07" => c07::run(ctx),
         "C08" => c08::run(ctx),
         "C09" => c09::run(ctx),
@@ -37,6 +44,7 @@ fn dispatch(id: &str, ctx: &mut Ctx) -> bool {
         "C14" => c14::run(ctx),
         "C16" => c16::run(ctx),
         "C17" => c17::run(ctx),
+        "C19" => c19::run(ctx),
         _ => return false,
     }
     true
